@@ -188,8 +188,8 @@ NestLits == {<<Obj([id |-> IntV(0), tags |-> Obj([n |-> IntV(0)])]), <<C("tags")
              <<Arr(<<IntV(7), Arr(<<IntV(8), Arr(<<IntV(0)>>)>>)>>), <<N(1), N(1), N(0)>>>>}
 NestPlans == {Call("each", <<l, Call("asm", <<Call("set", <<P(TRUE, <<C("asm")>>), nl[1]>>), Call("set", <<P(TRUE, <<C("asm")>> \o nl[2]), LSrc>>)>>)>>) :
                  l \in {Arr(<<IntV(3), IntV(1), IntV(2)>>), P(FALSE, <<C("src"), C("b")>>)}, nl \in NestLits}
-             \cup {Call("asm", <<Call("set", <<P(FALSE, <<C("asm")>>), nl[1]>>), Call("set", <<P(FALSE, <<C("asm")>> \o nl[2]), v>>)>>) :
-                     nl \in NestLits, v \in {P(FALSE, <<C("src"), C("a")>>), Call("sum", <<P(FALSE, <<C("asm")>> \o nl[2]), P(FALSE, <<C("src"), C("a")>>)>>)}}
+             \cup UNION {{Call("asm", <<Call("set", <<P(FALSE, <<C("asm")>>), nl[1]>>), Call("set", <<P(FALSE, <<C("asm")>> \o nl[2]), v>>)>>) :
+                            v \in {P(FALSE, <<C("src"), C("a")>>), Call("sum", <<P(FALSE, <<C("asm")>> \o nl[2]), P(FALSE, <<C("src"), C("a")>>)>>)}} : nl \in NestLits}
              \cup {Call("asm", <<Call("set", <<P(FALSE, <<C("asm"), C("x")>>), nl[1]>>), Call("set", <<P(FALSE, <<C("asm"), C("y")>>), nl[1]>>),
                                   Call("set", <<P(FALSE, <<C("asm"), C("x")>> \o nl[2]), P(FALSE, <<C("src"), C("a")>>)>>)>>) : nl \in NestLits}
              \cup {Call("set", <<P(FALSE, <<C("asm")>>), Call("each", <<Arr(<<IntV(1), IntV(2), IntV(3)>>), Call("asm", <<Call("set", <<P(TRUE, <<C("asm")>>), nl[1]>>),
